@@ -159,8 +159,9 @@ func hsDumpLit(d nebula.VerifHSDump) string {
 type hsPeer struct {
 	num   int      // shim peer number
 	addrs []uint64 // certificate addresses in certificate order
-	v1    bool
-	self  bool
+	v1      bool
+	self    bool
+	selfPos string // where the (last) own address sits in the certificate: self-first / self-mid / self-last
 }
 
 type hsPkt struct {
@@ -199,10 +200,18 @@ func newHsHist(c *hx.Ctx, my []uint64, pref bool, space int) *hsHist {
 func (h *hsHist) addPeer(version int, addrs []nebula.VerifHSPeerAddr) int {
 	n := h.w.NewPeer(version, addrs)
 	p := hsPeer{num: n, addrs: h.w.PeerAddrs(n), v1: version == 1}
-	for _, a := range p.addrs {
+	for i, a := range p.addrs {
 		for _, m := range h.my {
 			if a == m {
 				p.self = true
+				switch {
+				case i == 0:
+					p.selfPos = "self-first"
+				case i == len(p.addrs)-1:
+					p.selfPos = "self-last"
+				default:
+					p.selfPos = "self-mid"
+				}
 			}
 		}
 	}
@@ -324,6 +333,7 @@ func (h *hsHist) opStage2(id uint64, peer int, ridx uint32, t, v uint64) {
 	if h.w.Known(id) && h.w.Stage2Applicable(id) {
 		if p.self {
 			h.feat["self"] = true
+			h.feat[p.selfPos] = true
 		}
 		h.w.DeliverStage2(id, p.num, ridx, t, v)
 	}
@@ -336,6 +346,7 @@ func (h *hsHist) opStage1(pk int, v uint64, script []uint32) {
 	p := h.peers[q.peer]
 	if p.self {
 		h.feat["self"] = true
+		h.feat[p.selfPos] = true
 	}
 	served := h.w.DeliverStage1(q.id, v, script)
 	h.record(hx.App("RespStage1", hx.N(q.id), hx.NList(hsU32s(served)), hx.N(uint64(q.ridx)), hx.N(q.t), hx.NList(p.addrs), hx.N(v)),
@@ -484,19 +495,40 @@ func (h *hsHist) underlay() uint64 {
 	return 1 + uint64(h.c.Intn(3))
 }
 
+// address pool of the peers: IPv4 below and above my IPv4 address 5, IPv6 above my IPv6 address 1001
+var hsPool = []uint64{3, 4, 6, 8, 9, 1003, 1004}
+
+func (h *hsHist) isMine(a uint64) bool {
+	for _, m := range h.my {
+		if a == m {
+			return true
+		}
+	}
+	return false
+}
+
+func (h *hsHist) poolAddr() uint64 {
+	for {
+		a := hsPool[h.c.Intn(len(hsPool))]
+		if !h.isMine(a) {
+			return a
+		}
+	}
+}
+
 func (h *hsHist) makePeers() {
-	pool := []uint64{3, 4, 5, 6, 7, 8}
 	n := 4 + h.c.Intn(3)
 	for i := 0; i < n; i++ {
-		if h.c.Chance(0.35) {
-			h.addPeer(1, []nebula.VerifHSPeerAddr{{Addr: pool[h.c.Intn(4)], Bits: 8}})
+		if h.c.Chance(0.3) {
+			h.addPeer(1, hsA([]uint64{3, 4, 6, 8}[h.c.Intn(4)])) // v1: one IPv4 network
 			continue
 		}
 		k := 1 + h.c.Intn(3)
 		seen := map[string]bool{}
 		var addrs []nebula.VerifHSPeerAddr
 		for len(addrs) < k {
-			a := nebula.VerifHSPeerAddr{Addr: pool[h.c.Intn(len(pool))], Bits: []int{8, 16, 24}[h.c.Intn(3)]}
+			x := h.poolAddr()
+			a := nebula.VerifHSPeerAddr{Addr: x, Bits: hsBits(x, h.c.Intn(3))}
 			key := fmt.Sprintf("%d/%d", a.Addr, a.Bits)
 			if !seen[key] {
 				seen[key] = true
@@ -505,19 +537,59 @@ func (h *hsHist) makePeers() {
 		}
 		h.addPeer(2, addrs)
 	}
-	// a peer claiming one of my addresses (alone, or next to an address of its own)
-	m := h.my[h.c.Intn(len(h.my))]
-	if h.c.Chance(0.5) {
-		h.addPeer(2, []nebula.VerifHSPeerAddr{{Addr: m, Bits: 8}})
-	} else {
-		h.addPeer(2, []nebula.VerifHSPeerAddr{{Addr: pool[h.c.Intn(len(pool))], Bits: 16}, {Addr: m, Bits: 24}})
+	// a peer whose certificate overlaps the hot peer's first address at a non-primary index: a smaller address first
+	if first := h.peers[0].addrs[0]; first > 3 && first < 1000 {
+		h.addPeer(2, hsAs(3, first))
+	} else if first >= 1000 {
+		h.addPeer(2, hsAs(4, first))
+	}
+	// peers claiming one of my addresses, at every position of the certificate: alone, first, in the middle, last.
+	// The certificate sorts its networks (IPv4 before IPv6, ascending), so the position is decided by the other
+	// addresses: smaller ones come before mine, larger ones after.
+	for _, m := range h.my {
+		var smaller, larger []uint64
+		for _, a := range hsPool {
+			if h.isMine(a) {
+				continue
+			}
+			if (a < 1000) == (m < 1000) && a < m || (a < 1000 && m >= 1000) {
+				smaller = append(smaller, a)
+			} else {
+				larger = append(larger, a)
+			}
+		}
+		pick := func(xs []uint64) uint64 { return xs[h.c.Intn(len(xs))] }
+		switch h.c.Intn(4) {
+		case 0:
+			h.addPeer(2, hsAs(m))
+		case 1:
+			if len(larger) > 0 {
+				h.addPeer(2, hsAs(m, pick(larger)))
+			}
+		case 2:
+			if len(smaller) > 0 && len(larger) > 0 {
+				h.addPeer(2, hsAs(pick(smaller), m, pick(larger)))
+			}
+		case 3:
+			if len(smaller) > 0 {
+				h.addPeer(2, hsAs(pick(smaller), m))
+			}
+		}
+		// and always one with my address NOT first (the position a first-address-only check would miss)
+		if len(smaller) > 0 {
+			if len(larger) > 0 && h.c.Chance(0.5) {
+				h.addPeer(2, hsAs(pick(smaller), m, pick(larger)))
+			} else {
+				h.addPeer(2, hsAs(pick(smaller), m))
+			}
+		}
 	}
 }
 
 func (h *hsHist) pickPeer(selfOK bool) int {
 	for {
 		i := h.c.Intn(len(h.peers))
-		if h.peers[i].self && !(selfOK && h.c.Chance(0.5)) {
+		if h.peers[i].self && !(selfOK && h.c.Chance(0.6)) {
 			continue
 		}
 		return i
@@ -610,8 +682,20 @@ func (h *hsHist) randomOp() {
 			} else {
 				peer = h.pickPeer(false)
 			}
-		} else if r < 88 {
+		} else if r < 80 {
 			peer = h.pickPeer(false) // most likely a wrong responder
+		} else if ok && len(hi.Addrs) > 0 {
+			// a host claiming one of my addresses, preferably one whose certificate also lists the address we asked for
+			peer = h.pickPeer(true)
+			for i, p := range h.peers {
+				if p.self && h.c.Chance(0.5) {
+					for _, a := range p.addrs {
+						if a == hi.Addrs[0] {
+							peer = i
+						}
+					}
+				}
+			}
 		} else {
 			peer = h.pickPeer(true)
 		}
@@ -636,7 +720,7 @@ func (h *hsHist) randomOp() {
 
 func (h *hsHist) kind() string {
 	var fs []string
-	for _, f := range []string{"resend", "wrong", "self", "evict", "collide", "test"} {
+	for _, f := range []string{"resend", "wrong", "self-first", "self-mid", "self-last", "evict", "collide", "test"} {
 		if h.feat[f] {
 			fs = append(fs, f)
 		}
@@ -679,7 +763,23 @@ func (h *hsHist) emit(cw *hx.CaseWriter, label string) {
 
 // ---- fixed histories (corpus / boundaries), emitted first ---------------------------------------------
 
-func hsA(a uint64) []nebula.VerifHSPeerAddr { return []nebula.VerifHSPeerAddr{{Addr: a, Bits: 8}} }
+func hsBits(a uint64, k int) int {
+	if a >= 1000 {
+		return []int{64, 56, 48}[k%3]
+	}
+	return []int{8, 16, 24}[k%3]
+}
+
+func hsA(a uint64) []nebula.VerifHSPeerAddr { return []nebula.VerifHSPeerAddr{{Addr: a, Bits: hsBits(a, 0)}} }
+
+// hsAs: a certificate with the given addresses (the certificate sorts them: IPv4 before IPv6, ascending)
+func hsAs(as ...uint64) []nebula.VerifHSPeerAddr {
+	var r []nebula.VerifHSPeerAddr
+	for _, a := range as {
+		r = append(r, nebula.VerifHSPeerAddr{Addr: a, Bits: hsBits(a, 0)})
+	}
+	return r
+}
 
 // hsForgedWitness: known finding F27 on the real code. The first message of Noise IX is not authenticated when the
 // responder acts on it; an attacker rewrites the peer-reported time of a captured stage 1 (no key needed) and sends
@@ -815,6 +915,48 @@ func hsCorpus(c *hx.Ctx, cw *hx.CaseWriter) {
 	}
 }
 
+// hsSelfCorpus: a node with an IPv4 and an IPv6 address (5 and 1001); peer certificates that list one of these at
+// every position - alone, first, in the middle, last - next to addresses of their own; each is tried on the responder
+// path (stage 1) and on the initiator path (stage 2 for a handshake started to one of the certificate's other
+// addresses); then a certificate that overlaps another peer's address at a non-primary index.
+func hsSelfCorpus(c *hx.Ctx, cw *hx.CaseWriter) {
+	certs := [][]uint64{
+		{5}, {5, 8}, {3, 5, 8}, {3, 5}, {3, 4, 5}, // my IPv4 address: alone, first, middle, last, last of three
+		{1001}, {1001, 1003}, {6, 1001, 1003}, {6, 1001}, {3, 8, 1001}, // my IPv6 address: alone, first of the IPv6 part, middle, last
+		{3, 5, 1001}, // both of mine
+	}
+	h := newHsHist(c, []uint64{5, 1001}, false, 60)
+	good := h.addPeer(2, hsAs(3, 1004))
+	h.opStage1(h.newPkt(good, 1, 5), 1, []uint32{10}) // an ordinary tunnel to compare with: [3; 1004]
+	idx := uint32(20)
+	for _, cert := range certs {
+		p := h.addPeer(2, hsAs(cert...))
+		h.opStage1(h.newPkt(p, 2, 9), 2, []uint32{idx}) // responder: refused
+		idx++
+		target := uint64(0)
+		for _, a := range h.peers[p].addrs {
+			if !h.isMine(a) {
+				target = a
+			}
+		}
+		if target == 0 {
+			target = 9 // nothing but my addresses in the certificate: it answers a handshake to somebody else
+		}
+		h.opStart(target)
+		if id, ok := hsKVGet(h.prev.PVpn, target); ok {
+			h.opAlloc(id, []uint32{idx})
+			idx++
+			h.opStage2(id, p, 3, 9, 2) // initiator: dropped, not restarted, nothing installed
+		}
+	}
+	// overlap with another peer's address at a non-primary index: [4; 1004] shares 1004 with the first peer
+	over := h.addPeer(2, hsAs(4, 1004))
+	h.opStage1(h.newPkt(over, 4, 1), 1, []uint32{idx})   // address 4 is new: installed although older than the tunnel holding 1004
+	h.opStage1(h.newPkt(good, 5, 6), 1, []uint32{idx + 1}) // the first peer again: primary of 3 and 1004
+	h.opStage1(h.newPkt(over, 6, 2), 1, []uint32{idx + 2})
+	h.emit(cw, "corpus-own-address-positions")
+}
+
 func runHsmgr(c *hx.Ctx, check string) {
 	cw := c.NewCaseWriter("From NV Require Import model.HostMap model.HsMgr corr.HsMgr_corr.", "HsMgr_corr.case", check, 10)
 	if check == "HsMgr_corr.check_case10" {
@@ -822,11 +964,9 @@ func runHsmgr(c *hx.Ctx, check string) {
 		hsForgedWitness(c).emitForged(cw, "ix-responder-unauthenticated-msg1")
 	}
 	hsCorpus(c, cw)
+	hsSelfCorpus(c, cw)
 	for i := 0; i < c.N; i++ {
-		my := []uint64{1}
-		if c.Chance(0.4) {
-			my = []uint64{1, 2}
-		}
+		my := [][]uint64{{1}, {1, 2}, {5}, {5, 7}, {5, 1001}, {4, 1001}, {5, 7, 1001}}[c.Intn(7)]
 		space := 40
 		if c.Chance(0.3) {
 			space = 6 + c.Intn(8)
@@ -839,9 +979,10 @@ func runHsmgr(c *hx.Ctx, check string) {
 		}
 		h.emit(cw, "")
 	}
-	cw.Close("operation histories of 35-50 handshake-manager operations on a node with one or two overlay addresses and 5-7 peers (v1 and v2 " +
-		"certificates, one to three addresses, overlapping between peers, one address twice under different prefix lengths, one peer claiming " +
-		"an address of the node): first deliveries and replays (75% of a payload whose tunnel is still held) of real Noise IX stage-1 messages " +
+	cw.Close("operation histories of 35-50 handshake-manager operations on a node with one to three overlay addresses (IPv4 and IPv6) and " +
+		"6-10 peers (v1 and v2 certificates, one to three IPv4/IPv6 addresses, overlapping between peers also at non-primary positions, one " +
+		"address twice under different prefix lengths, and for every address of the node peers claiming it alone / first / in the middle / " +
+		"last of their certificate): first deliveries and replays (75% of a payload whose tunnel is still held) of real Noise IX stage-1 messages " +
 		"with peer times around the times in the hostmap, index candidates colliding with held indexes, senders inside and outside the " +
 		"preferred range; initiator handshakes answered by the right host, a wrong host or a host claiming my address; deletes, promotions, " +
 		"timeouts; preceded by fixed boundary histories; non-trivial = history exercising at least two of {resend, wrong responder, self " +
